@@ -17,6 +17,7 @@ pub mod c15;
 pub mod c16;
 pub mod c17;
 pub mod c18;
+pub mod sr;
 
 pub fn spec(id: &str) -> Option<PropSpec> {
   Some(match id {
